@@ -59,7 +59,7 @@ META = {
                  "machine over the generated instruction tables, for all programs) tied to core/vm by T-gen tables and differential trace replay",
     "text": "Theorems nonhalting_costs_gas, run_terminates, gas_monotone, leftover_le_given_*, call_forwards_at_most_63_64, memory_paid*, "
             "frame_failure_reverts_call/create, static_no_write, static_call_preserves_view, writes_flag_complete, depth_le_1024, "
-            "no_modelled_panic, no_modelled_panic_stack_memory, conversions_guarded, modexp_alloc_bounded_by_gas, precompile_alloc_bounded_by_gas, stack_reads_within_validated_height, mem_access_in_bounds hold for every oracle (program, operands, state answers), world type, gas budget and epoch in the Lean model "
+            "no_modelled_panic, no_modelled_panic_stack_memory, conversions_guarded, static_subtree_readonly, modexp_alloc_bounded_by_gas, precompile_alloc_bounded_by_gas, stack_reads_within_validated_height, mem_access_in_bounds hold for every oracle (program, operands, state answers), world type, gas budget and epoch in the Lean model "
             "of Run and the five call wrappers; every run regenerates the instruction tables from the compiled core/vm, re-proves, executes ~2600 "
             "programs x 5 rule sets on the real EVM under a tracer, judges the property directly per frame and replays every trace in the model.",
     "note": GEN + " The bodies of the op* execute functions and the precompiles are not modelled: for them 'does not crash' is judged on the real "
